@@ -198,6 +198,7 @@ struct RangeStream {
     fault: Option<Fault>,
     finished: bool,
     extra_sent: bool,
+    empty_run: u32,
 }
 
 impl Stream for RangeStream {
@@ -264,6 +265,15 @@ impl Stream for RangeStream {
             }
         };
         this.chunks += 1;
+        // a plan whose sizes all come out as 0 near the end of a range (e.g. Rem(k) with <= k bytes
+        // left) must not yield empty chunks forever: the entity contract requires progress
+        let want = if want == 0 {
+            this.empty_run += 1;
+            if this.empty_run > 3 { remaining } else { 0 }
+        } else {
+            this.empty_run = 0;
+            want
+        };
         let mut n = want.min(remaining).min(MAX_CHUNK);
         let mut junk = false;
         if let Some(f) = &this.fault {
@@ -315,6 +325,7 @@ impl http_serve::Entity for MonEntity {
             fault,
             finished: false,
             extra_sent: false,
+            empty_run: 0,
         })
     }
 
